@@ -1329,6 +1329,64 @@ def rule_reuse(prog):
                 "error recovery skips tokens up to the next synchronisation token, so the extent of an error node depends on any number "
                 "of following tokens, but a node is only rebuilt if the change touches its range (+1): `else` in front of `j := 2;` stays "
                 "a one-token error when the assignment behind it is destroyed, a fresh parse extends it", ("recovery",))
+    # ---- (window): parsers decide where a node ends by peeking at the synchronisation sets; the longest token sequence one of
+    # their elements inspects behind a node is the number of tokens behind a node whose change must make the node "affected"
+    tags_ = tag_parsers(prog)
+    _sets, set_bodies = look_ahead_sets(prog)
+
+    def depth(e, seen=()):
+        e = hir.strip(e)
+        d = hir.path_def(e) if e.get("k") == "Path" else None
+        if d:
+            dp = d.get("rp") or d.get("p")
+            if dp in tags_:
+                return 1
+            sb = prog.body(dp) if dp and dp.startswith("spl_frontend::") else None
+            if sb is not None and dp not in seen:
+                alts = [n for n in hir.nodes(sb["body"], "Call") if (hir.callee(n) or "").endswith("nom::branch::alt")]
+                if alts:
+                    return depth(alts[0], seen + (dp,))
+            return 1
+        if e.get("k") == "Call":
+            cal = hir.callee(e) or ""
+            args = e["args"]
+            if cal.endswith("branch::alt") and args:
+                return max([depth(x, seen) for x in hir.strip(args[0]).get("es", [])] or [0])
+            if cal.endswith("sequence::pair") or cal.endswith("sequence::preceded") or cal.endswith("sequence::terminated"):
+                return sum(depth(x, seen) for x in args)
+            if cal.endswith("sequence::tuple") and args:
+                return sum(depth(x, seen) for x in hir.strip(args[0]).get("es", []))
+            if args:
+                return max(depth(x, seen) for x in args)
+        if e.get("k") == "Closure":
+            return 1    # an inline parser (e.g. `|input| Identifier::parse(None, input)`) consumes at least one token
+        return 0
+
+    max_depth = 0
+    for nm, sb in set_bodies.items():
+        alts = [n for n in hir.nodes(sb["body"], "Call") if (hir.callee(n) or "").endswith("nom::branch::alt")]
+        if alts:
+            max_depth = max(max_depth, depth(alts[0], (sb["p"],)))
+    window = None
+    for b in scope:
+        for st in hir.nodes(b["body"], "Struct"):
+            if (st.get("adt") or "").startswith("core::ops::range::Range"):
+                f_ = {x["name"]: x["e"] for x in st["fields"]}
+                en = hir.strip(f_.get("end", {}))
+                if en.get("k") == "Binary" and en["op"] == "+" and hir.lit_value(hir.strip(en["r"])) is not None and \
+                        any(x.get("k") == "Field" and x["name"] == "end" for x in hir.nodes(en["l"])):
+                    try:
+                        window = int(hir.lit_value(hir.strip(en["r"])))
+                    except (TypeError, ValueError):
+                        pass
+    if max_depth and window is not None:
+        out.add("parser::utility::affected", "the affected range reaches as far behind a node as the parsers' look-ahead", window >= max_depth,
+                c.loc(aff["sp"]), "the synchronisation sets inspect up to %d tokens behind a node (`ident :=`), a node counts as affected only "
+                "if the change touches its range + %d: changing the second token behind an argument keeps the old argument although a "
+                "fresh parse ends it elsewhere" % (max_depth, window), ("window",))
+    else:
+        out.add("parser::utility::affected", "the affected range reaches as far behind a node as the parsers' look-ahead", None, c.loc(aff["sp"]),
+                "look-ahead depth %s, window %s" % (max_depth, window), ("window",))
     # ---- (alt): an alternative that is handed the old node must be able to report `Affected` to the caller; a catch-all recovery
     # alternative behind it in the same alt(..) turns that report into an (empty) error node
     rec_fns = set(rb["p"] for rb, _, _ in recovery_sites(prog))
